@@ -235,8 +235,8 @@ structure Conforming (cfg : Profile) : Prop where
       have distinct names (so the profile states neither `type` nor `size` again) -/
   facts_wf : ∀ name n, ∀ kv ∈ cfg.facts name n, WFFact kv
   facts_nodup : ∀ name n, ((entryFacts cfg name n).map fun kv => lower kv.1).Nodup
-  /-- facts sit on one line of a control reply (`MLST`) -/
-  facts_line : ∀ name n, ∀ kv ∈ cfg.facts name n, NoBreak kv.1 ∧ NoBreak kv.2
+  /-- facts sit on one line of a control reply (`MLST`): no line feed inside -/
+  facts_line : ∀ name n, ∀ kv ∈ cfg.facts name n, '\n' ∉ kv.1 ∧ '\n' ∉ kv.2
   /-- the size stated for a directory is a number `int()` accepts -/
   dir_size : (decimal cfg.dirSize).length ≤ maxStrDigits
   /-- RFC 959 / `ls -l` columns of a LIST line -/
@@ -249,13 +249,13 @@ structure Conforming (cfg : Profile) : Prop where
 /-! ### the names and sizes the listing formats carry faithfully -/
 
 /-- a name both the listing format and the transport carry faithfully.
-    * MLSD variant: C20's `WFName` (implied by `cleanName`) and `NoEol`; the `MLST` reply travels on the
-      control connection and is cut with `str.splitlines()`, so no character that breaks a line there;
-    * LIST variant: C20's `WFLinuxName` — no leading white space (it cannot be told from the column
-      separator), no line feed — and no carriage return (`ftplib` reads listings in universal-newline
-      mode). -/
+    * both variants: no CR / LF — a listing travels as lines (`ftplib` reads them in universal-newline
+      mode, `_parse_mlsx` removes trailing CR / LF: C20's `NoEol`; the `MLST` reply is cut at `\n`), and FTPFS
+      itself refuses such names in a path; C20's `WFName` is implied by `cleanName`;
+    * LIST variant: additionally C20's `WFLinuxName` — no leading white space (it cannot be told from the
+      column separator). -/
 def NameOk (cfg : Profile) (n : Name) : Prop :=
-  (cfg.mlsd = true → NoBreak n) ∧ (cfg.mlsd = false → NoCrLf n ∧ Stops isSpace n)
+  NoCrLf n ∧ (cfg.mlsd = false → Stops isSpace n)
 
 /-- a file size the listing can state as a number `int()` accepts (fewer than 4301 digits) -/
 def SizeOk : Node → Prop
